@@ -1,5 +1,6 @@
 import ServiceModel.Inv.Defs
 import ServiceModel.Driver.Wire
+import ServiceModel.Model.Genesis
 /-!
 # Executable monitors
 
@@ -546,6 +547,13 @@ def restartKeeps (pre post : State) : List (String × String) :=
    ++ post.owner.flatMap (fun p => chk ((Map.get pre.owner p.1).isSome) s!"provider {p.1} got an owner at a restart")).map (fun v => ("stability", v))
   ++ (pre.withdraw.flatMap (fun p => chk (Map.get post.withdraw p.1 == some p.2) s!"withdrawal address of {p.1} changed or disappeared at a restart")
    ++ post.withdraw.flatMap (fun p => chk ((Map.get pre.withdraw p.1).isSome) s!"withdrawal address of {p.1} appeared at a restart")).map (fun v => ("withdrawLaw", v))
+
+/-- decidable reading of `restart_ctxs` (Proofs/OnceRestart.lean): the contexts after a restart are exactly the contexts
+    before it, each reset and otherwise unchanged — attributed to the monitor `lifecycle` -/
+def restartCtxs (pre post : State) : Viol :=
+  pre.ctxs.flatMap (fun p => chk (decide (Map.get post.ctxs p.1 = some (resetCtx p.2)))
+    "a context was lost or changed by a restart beyond being paused with its batch completed")
+  ++ post.ctxs.flatMap (fun p => chk ((Map.get pre.ctxs p.1).isSome) "a context appeared at a restart")
 
 /-- C20: no panic -/
 def noPanic (t : Step) : Viol :=
